@@ -18,9 +18,10 @@ theorem lookup_erase_self (m : List (Nat × Slot)) (k : Nat) : lookup (erase m k
   | nil => rfl
   | cons p m ih =>
     obtain ⟨k', v⟩ := p
+    unfold erase at *
     by_cases h : k' = k
-    · simp [erase, List.filter, h] at *; exact ih
-    · simp [erase, List.filter, h, lookup_cons] at *; exact ih
+    · simp only [List.filter, h, ne_eq, not_true_eq_false, decide_false]; exact ih
+    · simp only [List.filter, h, ne_eq, not_false_eq_true, decide_true, lookup_cons, if_false]; exact ih
 
 theorem lookup_erase_ne (m : List (Nat × Slot)) (k y : Nat) (h : y ≠ k) :
     lookup (erase m k) y = lookup m y := by
@@ -28,12 +29,15 @@ theorem lookup_erase_ne (m : List (Nat × Slot)) (k y : Nat) (h : y ≠ k) :
   | nil => rfl
   | cons p m ih =>
     obtain ⟨k', v⟩ := p
+    unfold erase at *
     by_cases h1 : k' = k
-    · have : k' ≠ y := by omega
-      simp [erase, List.filter, h1, lookup_cons, this] at *
-      subst h1; simp [lookup_cons, this]; exact ih
-    · simp [erase, List.filter, h1, lookup_cons] at *
-      by_cases h2 : k' = y <;> simp [h2]; exact ih
+    · have h2 : ¬ k' = y := by omega
+      simp only [List.filter, h1, ne_eq, not_true_eq_false, decide_false, lookup_cons]
+      rw [if_neg (by omega)]; exact ih
+    · simp only [List.filter, h1, ne_eq, not_false_eq_true, decide_true, lookup_cons]
+      by_cases h2 : k' = y
+      · simp [h2]
+      · simp only [h2, if_false]; exact ih
 
 theorem lookup_insert_self (m : List (Nat × Slot)) (k : Nat) (v : Slot) :
     lookup (insert m k v) k = some v := by
@@ -67,6 +71,9 @@ theorem enq_outq (e : EP) (m : Msg) :
 @[simp] theorem enq_opts (e : EP) (m : Msg) : (e.enq m).opts = e.opts := by
   unfold EP.enq; split <;> rfl
 
+@[simp] theorem enq_park (e : EP) (m : Msg) : (e.enq m).park = e.park := by
+  unfold EP.enq; split <;> rfl
+@[simp] theorem modObj_park (e : EP) (i : Nat) (f : Obj → Obj) : (e.modObj i f).park = e.park := rfl
 @[simp] theorem modObj_flows (e : EP) (i : Nat) (f : Obj → Obj) : (e.modObj i f).flows = e.flows := rfl
 @[simp] theorem modObj_outq (e : EP) (i : Nat) (f : Obj → Obj) : (e.modObj i f).outq = e.outq := rfl
 @[simp] theorem modObj_outClosed (e : EP) (i : Nat) (f : Obj → Obj) : (e.modObj i f).outClosed = e.outClosed := rfl
